@@ -89,24 +89,6 @@ def ArgsConform (Pm : Params) (env : Env) (defs : List ArgDef) (m : List (String
   ∀ d ∈ defs, (∀ v, m.lookup d.name = some v → Conforms Pm env d.ty v) ∧
     (m.lookup d.name = none → isNonNull d.ty = false ∧ d.dflt = none)
 
-theorem find_self {defs : List ArgDef} (hnd : noDupNames (defs.map (·.name)) = true) {d : ArgDef}
-    (hd : d ∈ defs) : ArgDef.find defs d.name = some d := by
-  induction defs with
-  | nil => simp at hd
-  | cons d0 ds ih =>
-    obtain ⟨hfresh, hnd'⟩ := ApiFu.C05.noDupNames_cons (by simpa using hnd)
-    rcases List.mem_cons.mp hd with rfl | hd
-    · simp [ArgDef.find]
-    · have hne : (d0.name == d.name) = false := by
-        cases hb : d0.name == d.name
-        · rfl
-        · exfalso; apply hfresh
-          have : d0.name = d.name := by simpa using hb
-          rw [this]; exact List.mem_map_of_mem hd
-      have := ih hnd' hd
-      simp only [ArgDef.find] at this ⊢
-      simp [hne, this]
-
 /-- **arguments_conform.** -/
 theorem arguments_conform (Pm : Params) (fuel : Nat) (c : Case) (vars : Vars)
     (args : List (String × GoVal)) (henv : EnvOK Pm c.env) (hh : HookOK Pm) (hdefs : ArgDefsOK Pm c.env c.argDefs)
